@@ -14,17 +14,17 @@ NA_PURE = {
 CHECKS = {
     "C01": ("machine", "exploration",
             "seeded call programs + hostile signature delivery against the real StateMachine, checked by an independent signature ledger after every call",
-            "Seeded search over call programs (all operations, any phase) and over what a hostile network can deliver as a signature (wrong signer, other state, replayed, duplicated, malformed). After every call the current transaction must carry, per participant, a signature that verifies and that the harness itself recorded as made by that participant over exactly that state encoding. Sampling, not proof: a clean batch is evidence. Waves 8-9: a restore op (RestoreStateMachine from the live machine, nothing observable may change) and a clone op after which the machine left behind must never change again.",
+            "Seeded search over call programs (all operations, any phase) and over what a hostile network can deliver as a signature (wrong signer, other state, replayed, duplicated, malformed). After every call the current transaction must carry, per participant, a signature that verifies and that the harness itself recorded as made by that participant over exactly that state encoding. Sampling, not proof: a clean batch is evidence. Waves 8-9: a restore op (RestoreStateMachine from the live machine, nothing observable may change) and a clone op after which the machine left behind must never change again. Wave 10: marathon programs (130-180 promotions), big channels (16/64 participants, 8 assets).",
             "Trusts the sim backend's ECDSA sign/verify as ground truth for 'verifies'; the ledger cross-check does not. Indices >= N and ForceUpdate/CheckUpdate on a machine without a current state are outside the property's quantifier.",
             "6/C01"),
     "C02": ("machine", "exploration",
             "reachable states by accepted updates; valid successors, single-condition and multi-condition mutants vs. an independent reference predicate",
-            "At states reached through accepted updates, candidates (valid successors, one-clause mutants of them, random multi-clause mutants) are offered to Update, CheckUpdate and Init; err==nil must equal a reference predicate written from the property statement, refusals must leave the machine unchanged and unsigned. Sampling of a large input space at reachable reference points. Waves 8-9: candidates obtained through the library's own State().Clone() and edited in place, judged against the harness's own copy; a refused Init must leave the machine unchanged and unsigned; restore and clone ops as in C01.",
+            "At states reached through accepted updates, candidates (valid successors, one-clause mutants of them, random multi-clause mutants) are offered to Update, CheckUpdate and Init; err==nil must equal a reference predicate written from the property statement, refusals must leave the machine unchanged and unsigned. Sampling of a large input space at reachable reference points. Waves 8-9: candidates obtained through the library's own State().Clone() and edited in place, judged against the harness's own copy; a refused Init must leave the machine unchanged and unsigned; restore and clone ops as in C01. Wave 10: balances at the 128-byte limit (sums need a carry word); marathon programs and big channels as in C01.",
             "The reference predicate is part of the trusted base (sim/gen/ref.go, 120 lines, never calls Valid/Sum/Equal of the code under test). nil big integers and >1024-dimension allocations are not generated.",
             "6/C02"),
     "C09": ("machine", "exploration",
             "reference phase automaton from the doc comments; enumerated short call sequences after 8 prefixes + seeded long programs; byte snapshots for atomicity",
-            "Every call's error/success, resulting phase, staged and current transaction are compared with a reference automaton written from the operations' doc comments; failed calls must leave a byte-identical snapshot. All sequences of a fixed length over a 22-operation canonical alphabet are enumerated after each of 8 prefixes for both participant indices (reported as an enumerated sub-space), longer programs are sampled. Waves 8-9: restore op; the machine left behind by a clone op must never change again.",
+            "Every call's error/success, resulting phase, staged and current transaction are compared with a reference automaton written from the operations' doc comments; failed calls must leave a byte-identical snapshot. All sequences of a fixed length over a 22-operation canonical alphabet are enumerated after each of 8 prefixes for both participant indices (reported as an enumerated sub-space), longer programs are sampled. Waves 8-9: restore op; the machine left behind by a clone op must never change again. Wave 10: marathon programs (130-180 promotions) and big channels as in C01.",
             "The automaton (harness.go) is the trusted base. Where a doc comment is silent on a precondition (SetProgressing) the error text of the method is taken as documentation.",
             "6/C09"),
     "C03": ("world", "exploration",
@@ -39,12 +39,12 @@ CHECKS = {
             "6/C04"),
     "C06": ("world", "exploration",
             "two real clients in a synctest bubble; seeded update programs (sequential, concurrent, several channels) x keyed schedules and yield points (hand-placed hooks plus automatically injected ones at the lock boundaries of a scratch copy); agreement oracle over Enabled/SigAdded streams; token-configuration liveness",
-            "Programs of up to 15 Channel.Update calls from either side on 1-3 channels with keyed accept/reject decisions; strict runs check success => both enabled the proposed state fully signed, rejection => never enabled, no fork, version gap <= 1, accept => enabled, both Acting + probe update; the token configuration additionally forbids any timeout (a lost reply inside the client). Loss, duplication and short contexts run in a separate relaxed configuration that only checks the fully-signed invariant, as the property says. Later additions: eager concurrent openings with an immediate first payment, late return of Publish, the invariant that a controller's in-memory state is the last state it enabled; a driver call that never returns is a violation. Wave 7: channel synchronisation messages injected during the update program (replies taken by the driver); restart runs without a timeout judge the success clause for updates that started on current instances; the survivor may update while its peer is being restored. Wave 9: handlers that answer with a context of 0-8 ms while Publish returns late; the success clause (Update returned nil => both enabled the state) is judged in relaxed runs on non-duplicating networks too.",
+            "Programs of up to 15 Channel.Update calls from either side on 1-3 channels with keyed accept/reject decisions; strict runs check success => both enabled the proposed state fully signed, rejection => never enabled, no fork, version gap <= 1, accept => enabled, both Acting + probe update; the token configuration additionally forbids any timeout (a lost reply inside the client). Loss, duplication and short contexts run in a separate relaxed configuration that only checks the fully-signed invariant, as the property says. Later additions: eager concurrent openings with an immediate first payment, late return of Publish, the invariant that a controller's in-memory state is the last state it enabled; a driver call that never returns is a violation. Wave 7: channel synchronisation messages injected during the update program (replies taken by the driver); restart runs without a timeout judge the success clause for updates that started on current instances; the survivor may update while its peer is being restored. Wave 9: handlers that answer with a context of 0-8 ms while Publish returns late; the success clause (Update returned nil => both enabled the state) is judged in relaxed runs on non-duplicating networks too. Wave 10: 10-12 channels opened at once by one side, each with an immediate first update, while the responder learns late of the completed funding.",
             "Exactly-once delivery in strict configurations is go-perun's stated assumption about the bus. Same-instant wake-ups are ordered by the Go runtime, not by the seed (measured by the determinism self-test: 0 diverging of 480 runs x 3 executions).",
             "6/C06"),
     "C10": ("persist", "fault_enumeration",
             "crash at every store-write boundary (enumerated) of seeded persisted-machine programs on memorydb and LevelDB; restore vs. before/after snapshots; failing writes in a relaxed configuration",
-            "For every operation of every generated program and every write/batch boundary inside it, the durable image at that boundary is restored with a fresh restorer (LevelDB: written to a new directory and reopened) and RestoreChannel/RestorePeer must equal the harness's own before- or after-snapshot of the interrupted operation, exactly the after-snapshot once the operation completed; every restored staging signature must verify for the restored staged state; other channels restore unchanged. Crash points are enumerated per program, programs are sampled. Later addition: in the write-error configuration a failed Sig is retried; once it returns nil the store must hold the own signature. Wave 7: the three operations that take a state without validation (forced update, SetProgressing, SetProgressed) also get the current, a lower or a much higher version (the client itself forces the final form of the current version). Waves 8-9: channels with 9-11 participants; every operation is repeated after a failed write (a repeated call that returns nil has completed); an operation that returns nil although a write failed has completed.",
+            "For every operation of every generated program and every write/batch boundary inside it, the durable image at that boundary is restored with a fresh restorer (LevelDB: written to a new directory and reopened) and RestoreChannel/RestorePeer must equal the harness's own before- or after-snapshot of the interrupted operation, exactly the after-snapshot once the operation completed; every restored staging signature must verify for the restored staged state; other channels restore unchanged. Crash points are enumerated per program, programs are sampled. Later addition: in the write-error configuration a failed Sig is retried; once it returns nil the store must hold the own signature. Wave 7: the three operations that take a state without validation (forced update, SetProgressing, SetProgressed) also get the current, a lower or a much higher version (the client itself forces the final form of the current version). Waves 8-9: channels with 9-11 participants; every operation is repeated after a failed write (a repeated call that returns nil has completed); an operation that returns nil although a write failed has completed. Wave 10: channels with 62-65 participants.",
             "Boundaries are individual Put/Delete calls and Batch.Apply (atomic), as the property states; torn batches and file-level LevelDB corruption are out of scope. Create/remove use two batches, so RestoreChannel and RestorePeer are judged independently between them.",
             "6/C10"),
     "C11": ("persist", "exploration",
@@ -69,32 +69,32 @@ CHECKS = {
             "6/C12"),
     "C13": ("link", "fault_enumeration",
             "truncation at every offset, bit flips, length/count/backend-id/type field overwrites, splices and random bytes on the decoders' input stream; protobuf-level structural mutations; child processes under an address-space limit; race-detector pass with 4-8 concurrent decoders",
-            "Well-formed encodings of every wire type are corrupted by link/disk style faults (all truncation offsets enumerated for messages up to 2 KiB, others sampled) and fed to the native and protobuf envelope decoders and each value decoder. Oracle: a value or an error, never a panic, never a dead decoder process (out-of-memory under a 32 GiB address space limit counts); successful decodes respect the documented limits; dimension fields above the limit are rejected. Second pass: the engine is rebuilt with -race and valid states whose app is found by a predicate resolver are decoded on 4-8 goroutines at once (one decoder per connection is how the client runs); every decode must succeed and any data race in the decoders' shared tables is a violation. Wave 7: a second channel backend (id 1, 20-byte assets) is registered, so backend-id fields have two valid values and cross-ledger allocations decode.",
+            "Well-formed encodings of every wire type are corrupted by link/disk style faults (all truncation offsets enumerated for messages up to 2 KiB, others sampled) and fed to the native and protobuf envelope decoders and each value decoder. Oracle: a value or an error, never a panic, never a dead decoder process (out-of-memory under a 32 GiB address space limit counts); successful decodes respect the documented limits; dimension fields above the limit are rejected. Second pass: the engine is rebuilt with -race and valid states whose app is found by a predicate resolver are decoded on 4-8 goroutines at once (one decoder per connection is how the client runs); every decode must succeed and any data race in the decoders' shared tables is a violation. Wave 7: a second channel backend (id 1, 20-byte assets) is registered, so backend-id fields have two valid values and cross-ledger allocations decode. Wave 10: protobuf faults that set an amount to 128, 129 or 130 bytes with a small first byte.",
             "Value shapes are seeded input generation (stated in the evidence rule). The 32 GiB threshold is an assumption: no deployment hands that much memory to decoding a message of a few hundred bytes.",
             "6/C13"),
     "C14": ("link", "exploration",
             "streams of 1-20 concatenated seeded values of every wire type through both serializers; exact consumption, structural equality, byte-stable native re-encoding, signature and ID survival, serializer agreement; 2-3 concurrent senders on slow simulated connections in a synctest bubble",
-            "Seeded values of all 17 message types and all serialisable channel values (full shape space of the property) are written back to back on one simulated link and decoded in order; each decode must yield an equal value (harness's own field-by-field comparison), stop exactly at the end of its bytes, re-encode natively to the same bytes, keep signatures verifying and IDs equal; envelopes through protobuf must agree with the native result. The world engines additionally re-serialise every envelope of every run with the run's serializer. Wave 7: a second channel backend (id 1, 20-byte assets): in a quarter of the shapes every second asset lives on the second ledger.",
+            "Seeded values of all 17 message types and all serialisable channel values (full shape space of the property) are written back to back on one simulated link and decoded in order; each decode must yield an equal value (harness's own field-by-field comparison), stop exactly at the end of its bytes, re-encode natively to the same bytes, keep signatures verifying and IDs equal; envelopes through protobuf must agree with the native result. The world engines additionally re-serialise every envelope of every run with the run's serializer. Wave 7: a second channel backend (id 1, 20-byte assets): in a quarter of the shapes every second asset lives on the second ledger. Wave 10: balances of exactly 128 bytes; balance matrices of 65536 entries and more with each dimension inside its limit.",
             "Input generation, not enumeration. Wire address maps carry up to three backend ids; wallet address maps only backend id 0 (the only wallet backend of the repository). In a fifth of the runs the envelopes are also encoded by 2-3 goroutines at once, each to its own connection whose writes take keyed simulated time; every connection must carry exactly what its sender sent.",
             "6/C14"),
     "C16": ("link", "fault_enumeration",
             "read/write chunk schedules (single bytes, segments, field boundaries +-1, random partitions, all single splits of short streams) on an open simulated link under wire/net ioConn with both serializers",
-            "1-10 consecutive envelopes (byte fields up to 64 KiB through a blob-data app) are sent with the real ioConn.Send and read with ioConn.Recv under chunking schedules; every envelope must decode, in order, to what was sent, and identically under any two schedules. All single-split positions are enumerated for streams up to 1 KiB, other partitions are sampled. Sender-side fault: a Send of an envelope that cannot be encoded between well-formed ones; exactly the envelopes reported as sent must arrive. Wave 7: an envelope whose protobuf frame is 65535 +- 150 bytes is sent in between: its Send fails cleanly or it arrives, the stream stays framed either way; cross-ledger allocations. Wave 9: write faults now include short writes (io.ErrShortWrite, once or twice in a row) and partial writes followed by a timeout.",
+            "1-10 consecutive envelopes (byte fields up to 64 KiB through a blob-data app) are sent with the real ioConn.Send and read with ioConn.Recv under chunking schedules; every envelope must decode, in order, to what was sent, and identically under any two schedules. All single-split positions are enumerated for streams up to 1 KiB, other partitions are sampled. Sender-side fault: a Send of an envelope that cannot be encoded between well-formed ones; exactly the envelopes reported as sent must arrive. Wave 7: an envelope whose protobuf frame is 65535 +- 150 bytes is sent in between: its Send fails cleanly or it arrives, the stream stays framed either way; cross-ledger allocations. Wave 9: write faults now include short writes (io.ErrShortWrite, once or twice in a row) and partial writes followed by a timeout. Wave 10: balances of exactly 128 bytes.",
             "The stream stays open (a reader reporting EOF together with the last bytes is a closed connection, which the native codec treats as an error by design).",
             "6/C16"),
     "C05": ("watcher", "exploration",
             "the real local watcher on a scripted adjudicator in a synctest bubble; enumerated short action histories x 3 schedules + seeded long histories with racing publishes/events/stops and yield points (hand-placed hooks plus automatically injected ones at the lock boundaries of a scratch copy); reference model with explicit may-zones",
-            "Driver actions (start watching parent/sub-channels, publish, inject registered/progressed/concluded events with any version, stop watching, refused stops) are issued with keyed gaps, partly concurrently, with self-caused events on or off and scripted Register failures. Every observable point gets a global number; the oracle checks must-refute, the shape of every Register call (newest parent in the admissible interval, one sub-state per locked sub-allocation in order, archived state for de-registered ones), no spurious registration, relay at-most-once/in-order/always for progressed and concluded, and the refused-stop contract. All histories up to length 5 (quick) / 6 (thorough) with one sub-channel and versions <= 2 are enumerated at 3 schedules each. Later additions: StopWatching(parent) racing StartWatchingSubChannel as an epilogue (exactly one of the two may succeed), scripted Subscribe failures. Wave 8: epilogue with a lagging client - 13-16 progressed events and a concluded one while the client does not read; it must get all of them, in order.",
+            "Driver actions (start watching parent/sub-channels, publish, inject registered/progressed/concluded events with any version, stop watching, refused stops) are issued with keyed gaps, partly concurrently, with self-caused events on or off and scripted Register failures. Every observable point gets a global number; the oracle checks must-refute, the shape of every Register call (newest parent in the admissible interval, one sub-state per locked sub-allocation in order, archived state for de-registered ones), no spurious registration, relay at-most-once/in-order/always for progressed and concluded, and the refused-stop contract. All histories up to length 5 (quick) / 6 (thorough) with one sub-channel and versions <= 2 are enumerated at 3 schedules each. Later additions: StopWatching(parent) racing StartWatchingSubChannel as an epilogue (exactly one of the two may succeed), scripted Subscribe failures. Wave 8: epilogue with a lagging client - 13-16 progressed events and a concluded one while the client does not read; it must get all of them, in order. Wave 10: epilogue in which one sub-channel is watched and de-registered 70 times in a row.",
             "The reference model with its may-zones (oracle.go) is the trusted base; workload restrictions are listed in the evidence assumptions. Multi-ledger channels are excluded, as in the property.",
             "6/C05"),
     "C18": ("relay", "exploration",
             "2-4 simulated threads on one real wire.Relay in a bubble, schedules through the relay/receiver yield points (hand-placed hooks plus automatically injected ones at the lock boundaries of a scratch copy); distribution invariants + porcupine linearizability against a sequential relay model; race-detector pass with real parallelism",
-            "Programs of puts, subscribes, cache enable/release and consumer closes with overlapping predicates run on 2-4 threads with keyed gaps and a buggify mask over 7 yield sites; after quiescence the final distribution must have no duplicate, no predicate violation and no unaccounted envelope, and the stamped history must be linearizable (porcupine) against a sequential reference relay. The same engine is rebuilt with -race and run with GOMAXPROCS>1, including bursts of unsynchronised concurrent puts; any data race in wire/relay.go, cache.go or receiver.go is a violation. Wave 7: impatient consumers - Receiver.Next with a context that is already done or whose deadline passes while waiting, on a receiver that stays open; every envelope handed to the receiver must still be returned by exactly one call. Wave 9: epilogue on a relay of its own - a stalled receiver fills up, the producer blocks, the receiver is closed; the producer must go on and the other consumer gets all envelopes once; a stalled relay simulation is classified as lock-up.",
+            "Programs of puts, subscribes, cache enable/release and consumer closes with overlapping predicates run on 2-4 threads with keyed gaps and a buggify mask over 7 yield sites; after quiescence the final distribution must have no duplicate, no predicate violation and no unaccounted envelope, and the stamped history must be linearizable (porcupine) against a sequential reference relay. The same engine is rebuilt with -race and run with GOMAXPROCS>1, including bursts of unsynchronised concurrent puts; any data race in wire/relay.go, cache.go or receiver.go is a violation. Wave 7: impatient consumers - Receiver.Next with a context that is already done or whose deadline passes while waiting, on a receiver that stays open; every envelope handed to the receiver must still be returned by exactly one call. Wave 9: epilogue on a relay of its own - a stalled receiver fills up, the producer blocks, the receiver is closed; the producer must go on and the other consumer gets all envelopes once; a stalled relay simulation is classified as lock-up. Wave 10: epilogues with 20-80 cached envelopes taken over by a late subscriber, and with 40 consumers with disjoint predicates most of which are closed in a drawn order.",
             "A cooperative scheduler cannot split a single append; unsynchronised conflicting accesses are therefore left to the happens-before race detector. Race-mode runs do not replay instruction for instruction.",
             "6/C18"),
     "C20": ("multi", "exploration",
             "real multi.Adjudicator/Funder over scripted per-ledger backends in a bubble; keyed sub-call latencies (all completion orders), failures and stalls; call-log oracle; race-detector pass",
-            "Asset lists of 1-6 multi-ledger assets over up to 6 ledgers (repeated, reordered, unregistered, foreign ledgers registered), calls Register/Progress/Withdraw/Fund with and without an egoistic participant; from the call logs: every distinct ledger of the channel called exactly once and no other, success only if every forwarded call succeeded and every ledger was registered, the egoistic ledger's Fund starts only after all others returned nil, no dispatcher goroutine outlives the run. Later additions: the request's own content varies (secondary flag, participant index, zero balances per asset, sub-channel states); the caller may cancel its context while sub-calls are pending. Wave 9: twin requests (the other participant issues the same kind of request for the same channel and registered state concurrently), told apart by participant index.",
+            "Asset lists of 1-6 multi-ledger assets over up to 6 ledgers (repeated, reordered, unregistered, foreign ledgers registered), calls Register/Progress/Withdraw/Fund with and without an egoistic participant; from the call logs: every distinct ledger of the channel called exactly once and no other, success only if every forwarded call succeeded and every ledger was registered, the egoistic ledger's Fund starts only after all others returned nil, no dispatcher goroutine outlives the run. Later additions: the request's own content varies (secondary flag, participant index, zero balances per asset, sub-channel states); the caller may cancel its context while sub-calls are pending. Wave 9: twin requests (the other participant issues the same kind of request for the same channel and registered state concurrently), told apart by participant index. Wave 10: ledger ids that differ from another ledger's only by a white-space byte at an end.",
             "The converse 'fails although nothing failed' is only counted (the statement says 'succeeds only if').",
             "6/C20"),
 }
